@@ -6,7 +6,7 @@ ID, needs, caught = sys.argv[1:4]
 notes = sys.argv[4] if len(sys.argv) > 4 else ""
 wt = os.environ.get("WT", f"/tmp/wt_{ID}")
 tag = os.path.basename(wt)
-name = ID + ("b" if tag.startswith("wt2_") else "c" if tag.startswith("wt3_") else "d" if tag.startswith("wt4_") else "e" if tag.startswith("wt5_") else "f" if tag.startswith("wt6_") else "g" if tag.startswith("wt7_") else "h" if tag.startswith("wt8_") else "i" if tag.startswith("wt9_") else "")
+name = ID + ("b" if tag.startswith("wt2_") else "c" if tag.startswith("wt3_") else "d" if tag.startswith("wt4_") else "e" if tag.startswith("wt5_") else "f" if tag.startswith("wt6_") else "g" if tag.startswith("wt7_") else "h" if tag.startswith("wt8_") else "i" if tag.startswith("wt9_") else "j" if tag.startswith("wt10_") else "")
 dst = os.path.join(os.path.dirname(os.path.dirname(os.path.abspath(__file__))), "seeded", name)
 os.makedirs(dst, exist_ok=True)
 shutil.copy(f"{wt}/patch_{ID}.diff", f"{dst}/patch.diff")
